@@ -204,24 +204,54 @@ def discarded_send_rule(rep, us, flags):
 
 def slot_state_rule(rep, u, states):
     n = 0
-    fc = tp.need(u, "tp_threads_create")
-    rep.functions.add(fc.name)
-    loops = fc.loops()
-    for pos, root, x, ps in fc.nodes():
-        if x.get("k") == "bin" and x["op"] == "=" and core.strip_casts(x["x"]).get("k") == "mem" and core.strip_casts(x["x"])["f"] == "state" \
-                and const_val(x["y"]) == states["STARTING"]:
-            n += 1
-            body = set().union(*[b for h, b in loops.items() if pos[0] in b]) if loops else set()
-            tested = False
-            for bid in body:
-                cnd = fc.blocks[bid].cond
-                if cnd is not None and fc.dominates(bid, pos[0]) and bid != pos[0] and \
-                        any(y.get("k") == "mem" and y["f"] == "state" for y, _ in walk(cnd)):
-                    tested = True
-            desc = "tp_threads_create: a slot is marked STARTING (and a thread created in it) only when it is free"
-            (rep.proved if tested else rep.violated)("R-STATE", fc, "starting-from-stop", desc, "the slot's state is tested in the loop" if tested else
-                                                     "no test of the slot's state: a second tp_threads_create() starts a second OS thread in every slot "
-                                                     "(start hooks run twice, three threads outlive tp_destroy of a 3-thread pool)", x.get("ln"))
+    for fname in ("tp_threads_create", "tp_thread_attach_first"):
+        fc = tp.need(u, fname)
+        rep.functions.add(fc.name)
+        claims = 0
+        # an atomic claim: compare-and-swap of ->state from STOP to STARTING in a branch condition
+        for pos, root, c, ps in fc.calls():
+            nm = c.get("fn") or ""
+            if nm.startswith(("__sync_bool_compare_and_swap", "__sync_val_compare_and_swap", "__atomic_compare_exchange")) and \
+                    any(y.get("k") == "mem" and y["f"] == "state" for y, _ in walk(c["args"][0])):
+                claims += 1
+                n += 1
+                ok = const_val(c["args"][1]) == states["STOP"] and const_val(c["args"][2]) == states["STARTING"]
+                (rep.proved if ok else rep.violated)("R-STATE", fc, "starting-from-stop", "%s: a slot is claimed by one atomic step from STOP to STARTING" % fname,
+                                                     nm if ok else "compare-and-swap with other states", c.get("ln"))
+        for pos, root, x, ps in fc.nodes():
+            if x.get("k") == "bin" and x["op"] == "=" and core.strip_casts(x["x"]).get("k") == "mem" and core.strip_casts(x["x"])["f"] == "state" \
+                    and const_val(x["y"]) == states["STARTING"]:
+                n += 1
+                claims += 1
+                loops = fc.loops()
+                body = set().union(*[b_ for h, b_ in loops.items() if pos[0] in b_]) if loops else set(fc.reachable_blocks())
+                tested = any(fc.blocks[bid].cond is not None and fc.dominates(bid, pos[0]) and bid != pos[0] and
+                             any(y.get("k") == "mem" and y["f"] == "state" for y, _ in walk(fc.blocks[bid].cond)) for bid in (body or set(fc.reachable_blocks())))
+                desc = "%s: a slot is claimed by one atomic step from STOP to STARTING" % fname
+                rep.violated("R-STATE", fc, "starting-from-stop", desc, ("the state is tested and then stored in two steps: two concurrent callers both pass the test and start two OS "
+                             "threads in one slot (one of them never gets the stop message, tp_destroy blocks in pthread_join)") if tested else
+                             ("no test of the slot's state: a second tp_threads_create() starts a second OS thread in every slot "
+                              "(start hooks run twice, three threads outlive tp_destroy of a 3-thread pool)"), x.get("ln"))
+        if not claims:
+            raise driver.AnalysisBroken("%s: no slot claim found" % fname)
+    # only the thread itself (and the roll-back of a failed claim) may declare the slot STOP
+    for fn in u.function_list:
+        if fn.relfile() != tp.TP_C or not fn.has_cfg or fn.name == "tp_thread_proc":
+            continue
+        for pos, root, x, ps in fn.nodes():
+            if x.get("k") == "bin" and x["op"] == "=" and core.strip_casts(x["x"]).get("k") == "mem" and core.strip_casts(x["x"])["f"] == "state" \
+                    and const_val(x["y"]) == states["STOP"]:
+                if "->pvt->" in key(x["x"]):
+                    continue          # the virtual thread has no procedure of its own: whoever starts / stops the pool owns its state
+                claimed_here = any((c.get("fn") or "").startswith(("__sync_bool_compare_and_swap", "__sync_val_compare_and_swap")) for _p, _r, c, _ps in fn.calls()) or \
+                    any(y.get("k") == "bin" and y["op"] == "=" and core.strip_casts(y["x"]).get("k") == "mem" and core.strip_casts(y["x"])["f"] == "state" and
+                        const_val(y["y"]) == states["STARTING"] for _p, _r, y, _ps in fn.nodes())
+                n += 1
+                rep.functions.add(fn.name)
+                desc = "%s: STOP ('the thread is gone') is stored only by the thread procedure or as the roll-back of this function's own claim" % fn.name
+                (rep.proved if claimed_here else rep.violated)("R-STATE", fn, "stop-only-by-owner", desc, "roll-back of the claim made here" if claimed_here else
+                                                               "stores STOP for a thread that still has to leave the loop, drain and run its stop hook: tp_shutdown_wait trusts STOP, "
+                                                               "tp_destroy frees the pool and the hook runs on freed memory", x.get("ln"))
     fp = tp.need(u, "tp_thread_proc")
     rep.functions.add(fp.name)
     for pos, root, x, ps in fp.nodes():
@@ -266,3 +296,51 @@ def fd_sentinel_rule(rep, u):
                     else:
                         rep.proved("R-FDZERO", fn, inst, desc, "compared with %d" % const_val(cst), x.get("ln"))
     return n
+
+
+def shutdown_done_rule(rep, u):
+    """tp_destroy() from one thread while another is still inside tp_shutdown(): the latch makes destroy's own shutdown a
+    no-op, nothing may need joining, and the pool is freed under the first caller.  tp_shutdown() publishes its completion as
+    its last access to the pool and tp_shutdown_wait() waits for it before anything else."""
+    fs, fw = tp.need(u, "tp_shutdown"), tp.need(u, "tp_shutdown_wait")
+    rep.functions.update([fs.name, fw.name])
+    done = None
+    for pos, root, x, ps in fs.nodes():
+        if x.get("k") == "bin" and x["op"] == "=" and core.strip_casts(x["x"]).get("k") == "mem" and const_val(x["y"]) not in (None, 0) and \
+                core.base_ref(x["x"]) is not None and core.base_ref(x["x"]).get("dk") == "parm":
+            f = core.strip_casts(x["x"])["f"]
+            # last access: no other statement of the function follows it
+            later = [p2 for p2, r2, y, _ in fs.nodes() if fs.pos_dominates(pos, p2) and p2 != pos and y.get("k") in ("call", "bin")]
+            if not later:
+                done = f
+    waits = False
+    joins = [pos for pos, root, c, ps in fw.calls({"pthread_join"})]
+    if done is not None and joins:
+        for h, body in fw.loops().items():
+            cnd = fw.blocks[h].cond
+            if cnd is not None and any(y.get("k") == "mem" and y["f"] == done for y, _ in walk(cnd)) and fw.dominates(h, joins[0][0]):
+                waits = True
+    desc = "tp_shutdown publishes its completion as its last access to the pool and tp_shutdown_wait waits for it before joining"
+    (rep.proved if waits else rep.violated)("R-LATCH", fw, "shutdown-completed", desc, "field '%s'" % done if waits else
+                                            "no completion flag: tp_destroy() by a second thread frees the pool while the first is still in the virtual thread's stop hook "
+                                            "(heap use after free in tp_shutdown)")
+    return 1
+
+
+def pvt_drain_rule(rep, us):
+    from props import c11
+    utp, um = us[tp.TP_C], us[tp.MSG_C]
+    g = c11.call_graph([utp, um])
+    fw = tp.need(utp, "tp_shutdown_wait")
+    readers = {f for f in g if "tpt_msg_recv_and_process" in c11.reach(g, f)}
+    joins = [pos for pos, root, c, ps in fw.calls({"pthread_join"})]
+    ok = False
+    for pos, root, c, ps in fw.calls(readers):
+        if any("pvt" in key(a) for a in c["args"]) and joins and pos[0] not in set().union(*fw.loops().values()) and \
+                all(fw.pos_dominates(pos, rp) for rp in r_mpt.success_returns(fw) if rp[0] in fw.reach_from([joins[0][0]])):
+            ok = True
+    desc = "tp_shutdown_wait: the virtual thread's queue is read once more after the workers are gone"
+    (rep.proved if ok else rep.violated)("R-DRAIN", fw, "pvt-drain-after-join", desc, "" if ok else
+                                         "nobody reads the virtual thread's queue at shutdown: a message accepted for it (send = 0) while the worker was busy never runs "
+                                         "and its memory leaks; tp_destroy returns 0")
+    return 1
